@@ -336,7 +336,7 @@ package types
 //@     invariant forall i int :: 0 <= i && i < iter ==> commit.Signatures[i].BlockIDFlag >= 1 && commit.Signatures[i].BlockIDFlag <= 3
 
 //@ func (vs *ValidatorSet) VerifyCommit(chainID string, blockID BlockID, height uint64, commit *Commit) (err error)
-//@   for C02 C01 C13 C18
+//@   for C02 C01 C13 C18 C11
 //@   requires vs != nil ==> wfVals(vs)
 //@   requires height >= 1
 //@   nooverflow
@@ -994,7 +994,7 @@ package types
 // empty (a nil vote) or complete (hash and part-set header both present): Vote.CommitSig panics on
 // anything in between, and it runs when a commit is assembled from the stored votes.
 //@ func (psh PartSetHeader) IsZero() (r bool)
-//@   for C18
+//@   for C18 C11
 //@   safe
 //@   modifies nothing
 //@   ensures r <==> psh == PartSetHeader{}
